@@ -353,7 +353,7 @@ func (w *World) MCache(rec *ScanRecord) []Violation {
 		}
 	}
 	if diff != "" {
-		for _, prop := range []string{"C03", "C06", "C08", "C11", "C13", "C15", "C20"} {
+		for _, prop := range []string{"C01", "C02", "C03", "C05", "C06", "C07", "C08", "C09", "C10", "C11", "C12", "C13", "C15", "C20"} {
 			out = append(out, viol(prop, "informer-cache-object-mutated", "the scan modified an object of the informer cache: %s", diff))
 		}
 	}
@@ -651,7 +651,22 @@ func (w *World) M06(rec *ScanRecord) []Violation {
 	var out []Violation
 	for _, gr := range rec.Groups {
 		ex := w.Expectation(rec, gr)
-		if rec.Faulty() || len(gr.Failed) > 0 {
+		// failed reads / writes of single nodes of this group do not suspend the rule: a candidate that
+		// cannot be tainted is passed over and the next oldest takes its place. Any other failure does.
+		nodeFaultsOnly := true
+		for _, e := range rec.Entries {
+			if e.Injected && e.Kind != sim.KGet && e.Kind != sim.KUpdate {
+				nodeFaultsOnly = false
+			}
+		}
+		failedCandidates := 0
+		for _, n := range gr.GV.Untainted {
+			if gr.Failed[n.Name] {
+				failedCandidates++
+			}
+		}
+		if (rec.Faulty() || len(gr.Failed) > 0) && !(nodeFaultsOnly && failedCandidates == len(gr.Failed) && ex.Kind == "band" && !ex.Starve && !ex.MaxAge &&
+			(ex.Bands == [4]bool{true, false, false, false} || ex.Bands == [4]bool{false, true, false, false})) {
 			continue
 		}
 		o := &w.Cfg.Groups[gr.G].Opts
@@ -680,9 +695,9 @@ func (w *World) M06(rec *ScanRecord) []Violation {
 		okBand := func(b ref.Band) bool {
 			switch b {
 			case ref.BandFast:
-				return k == minInt(o.FastNodeRemovalRate, U-m) && un == 0 && inc == 0
+				return k == minInt(minInt(o.FastNodeRemovalRate, U-m), U-failedCandidates) && un == 0 && inc == 0
 			case ref.BandSlow:
-				return k == minInt(o.SlowNodeRemovalRate, U-m) && un == 0 && inc == 0
+				return k == minInt(minInt(o.SlowNodeRemovalRate, U-m), U-failedCandidates) && un == 0 && inc == 0
 			case ref.BandNone:
 				return k == 0 && un == 0 && inc == 0
 			default:
@@ -1469,6 +1484,28 @@ func (w *World) M20(rec *ScanRecord) []Violation {
 	}
 	if rec.RealDur > 60*time.Second {
 		out = append(out, viol("C20", "hang", "RunOnce took %v of real time", rec.RealDur))
+	}
+	if rec.Hung {
+		out = append(out, viol("C20", "hang", "RunOnce never returned: every goroutine of the scan is blocked for good"))
+	}
+	// the only documented exit besides the not-in-group error: the third consecutive failed fleet
+	// provisioning of one group
+	if rec.FatalExit {
+		last := -1
+		total := 0
+		for _, gr := range rec.Groups {
+			if gr.Processed {
+				last = gr.G
+			}
+			total += gr.FleetFails
+		}
+		if last >= 0 && rec.Groups[last].FleetFails < 3 {
+			out = append(out, viol("C20", "undocumented-exit", "escalator exited while group %d had %d consecutive failed fleet provisionings (3 are documented)", last, rec.Groups[last].FleetFails))
+			out = append(out, viol("C18", "exit-before-third-consecutive-failure", "escalator exited while group %d had %d consecutive failed fleet provisionings", last, rec.Groups[last].FleetFails))
+			if total >= 3 {
+				out = append(out, viol("C12", "exit-caused-by-other-groups-failures", "escalator exited while group %d had %d consecutive failed fleet provisionings; the failures of the other groups were counted against it", last, rec.Groups[last].FleetFails))
+			}
+		}
 	}
 	if rec.Err != nil {
 		_, fatal := rec.Err.(*cloudprovider.NodeNotInNodeGroup)
